@@ -16,6 +16,6 @@ CFG = {
         "a write to the same bolt store from inside a Store.Cursor callback (a bbolt read transaction) is outside the modelled behaviour (answered OBad without effect; it can deadlock on bbolt's remap lock and drand never does it); memdb allows it and is modelled and compared with it",
         "the postgres back-end is not claimed (no server in the sandbox)",
     ],
-    "level_text": "For ALL operation histories (lists of put/get/last/del/len and cursor open/first/next/seek/last/close operations, by induction over the list): the models of untrimmed bolt, trimmed bolt (with and without previous-signature reconstruction) and the memdb ring each refine one strictly ascending association list round->beacon (C18_refines_*: equal outputs after every history; the ring = the map with keep-old re-put restricted to the newest cap rounds, C18_ring_keeps / C18_ring_bounded / C18_ring_forgets_oldest); the refinement of the bolt models goes through the byte-key ordering lemma be64 r < be64 r' (bytes.Compare) iff r < r' (C18_key_order). On top of that: every beacon any operation returns is exactly what Get of the round it is labelled with returns (C18_label_integrity, all three back-ends, including memdb cursors used during mutation), Get returns the data last put for the round and not deleted since (C18_get_boltU, C18_returned_*), the trimmed store's previous signature is the stored signature of round r-1 or the read fails (C18_prev_reconstruction), seeking a stored round returns that round (C18_seek_stored), First/Next iteration is strictly ascending and complete (C18_iteration), and a memdb cursor used while the store is mutated may skip or repeat rounds (witnesses C18_memdb_cursor_skips / _repeats). The models are compared with the real back-ends on every run (corpus incl. the F1 witness, exhaustive put/del sequences + full read probe, random sequences with gaps, byte-boundary rounds up to 2^64-1, re-puts, deletions, absent seeks, cursor sessions), and an independent reference-map monitor checks the property on the implementation's outputs.",
+    "level_text": "For ALL operation histories (lists of put/get/last/del/len and cursor open/first/next/seek/last/close operations, by induction over the list): the models of untrimmed bolt, trimmed bolt (with and without previous-signature reconstruction) and the memdb ring each refine one strictly ascending association list round->beacon (C18_refines_*: equal outputs after every history; the ring = the map with keep-old re-put restricted to the newest cap rounds, C18_ring_keeps / C18_ring_bounded / C18_ring_forgets_oldest); the refinement of the bolt models goes through the byte-key ordering lemma be64 r < be64 r' (bytes.Compare) iff r < r' (C18_key_order). On top of that: every beacon any operation returns is exactly what Get of the round it is labelled with returns (C18_label_integrity, all three back-ends, including memdb cursors used during mutation), Get returns the data last put for the round and not deleted since (C18_get_boltU, C18_returned_*), the trimmed store's previous signature is the stored signature of round r-1 or the read fails (C18_prev_reconstruction), seeking a stored round returns that round (C18_seek_stored), First/Next iteration is strictly ascending and complete (C18_iteration), and a memdb cursor used while the store is mutated may skip or repeat rounds (witnesses C18_memdb_cursor_skips / _repeats). The models are compared with the real back-ends on every run (corpus incl. the F1 witness, exhaustive put/del sequences + full read probe, random sequences with gaps, byte-boundary rounds up to 2^64-1, re-puts, deletions, absent seeks, cursor sessions, and close/reopen histories of the bolt files through the daemon's format probe, also while another handle still holds the file lock), and an independent reference-map monitor checks the property on the implementation's outputs.",
     "level_note": "Kernel-checked, no axioms, stdlib only. Theorems are about executable models of the three back-ends; bbolt, sort.Slice and encoding/json are modelled at their contracts and validated by the differential harness, not verified. F1 (trimmed Seek mislabelling) is fixed in /repo; the model has the fixed Seek, the full label-integrity theorem covers the trimmed store, and a recurrence is reported by the monitor as class boltT-seek-mislabel.",
 }
